@@ -60,6 +60,10 @@ type c22Machine struct {
 	restoresFailed0             string
 	loadDuringPersist           bool
 	nCopy                       int
+	images                      []string
+	nImg                        int
+	nReloads                    int
+	nBootsAttached              int
 }
 
 const c22Heartbeat = 300 * time.Millisecond
@@ -227,29 +231,73 @@ func (m *c22Machine) genInvalid() (kind string, data []byte) {
 }
 
 func (m *c22Machine) loadValid() {
-	l := m.leader()
-	if l == nil {
-		return
-	}
 	spec := g8aGenLoadSpec(m.rt)
-	p := filepath.Join(m.base, "load.db")
+	m.nImg++
+	p := filepath.Join(m.base, fmt.Sprintf("img-%d.db", m.nImg))
 	if err := g8aBuildDBFile(spec, p); err != nil {
 		m.rt.Skip("build load file")
+	}
+	if m.loadImage(p, "LOAD"+spec.String()) {
+		m.images = append(m.images, p)
+		if len(m.images) > 4 {
+			os.Remove(m.images[0])
+			m.images = m.images[1:]
+		}
+	}
+}
+
+// loadImage sends the bytes of the file at p through Store.Load.
+func (m *c22Machine) loadImage(p, desc string) bool {
+	l := m.leader()
+	if l == nil {
+		return false
 	}
 	if err := g8aLoadFile(l, p); err != nil {
 		if len(m.nodes) > 1 {
 			m.unexpected("load", err)
-			return
+			return false
 		}
-		m.fail("C22/valid-load-rejected", "load of a valid database failed: %v (%s)", err, spec)
+		m.fail("C22/valid-load-rejected", "load of a valid database failed: %v (%s)", err, desc)
 	}
 	if err := m.model.ReplaceWithFile(p); err != nil {
 		m.rt.Skip("model")
 	}
 	m.nLoads++
 	m.loadedOnce, m.snapAfterLoad, m.durAfterLoad = true, false, false
-	m.hist = append(m.hist, "LOAD"+spec.String())
-	m.checkAll("after a load", "C22/node-differs-after-load", "")
+	m.hist = append(m.hist, desc)
+	return m.checkAll("after a load", "C22/node-differs-after-load", "")
+}
+
+// reload loads an image that was loaded before, byte for byte, after later
+// writes (which live in the WAL, so the main file may still equal the image),
+// with or without a snapshot in between: the database must be the image
+// again, on every node.
+func (m *c22Machine) reload() {
+	if len(m.images) == 0 || rapid.IntRange(0, 2).Draw(m.rt, "freshImage") == 0 {
+		m.loadValid()
+		if m.done {
+			return
+		}
+	}
+	if len(m.images) == 0 {
+		return
+	}
+	img := m.images[rapid.IntRange(0, len(m.images)-1).Draw(m.rt, "image")]
+	if rapid.IntRange(0, 3).Draw(m.rt, "newest") != 0 {
+		img = m.images[len(m.images)-1]
+	}
+	for i := rapid.IntRange(1, 2).Draw(m.rt, "writesBeforeReload"); i > 0 && !m.done; i-- {
+		m.write(false)
+	}
+	if !m.done && rapid.IntRange(0, 2).Draw(m.rt, "snapshotBeforeReload") == 0 {
+		m.snapshot()
+	}
+	if m.done {
+		return
+	}
+	if m.loadImage(img, "RELOAD("+filepath.Base(img)+")") {
+		m.nReloads++
+	}
 }
 
 func (m *c22Machine) loadSQL() {
@@ -299,9 +347,6 @@ func (m *c22Machine) loadSQL() {
 }
 
 func (m *c22Machine) boot() {
-	if len(m.nodes) != 1 {
-		return
-	}
 	l := m.leader()
 	if l == nil {
 		return
@@ -317,6 +362,27 @@ func (m *c22Machine) boot() {
 	}
 	_, err = l.ReadFrom(f)
 	f.Close()
+	if len(m.nodes) > 1 {
+		// Boot bypasses the log, so it is a single-node operation: with any other
+		// node attached (voter or read-only) it has to be refused - or, if it
+		// reports success, every node must hold the booted database. Either way
+		// the comparison of every node with the model decides.
+		m.nBootsAttached++
+		if err != nil {
+			m.hist = append(m.hist, fmt.Sprintf("BOOT-WITH-%d-NODES(refused)", len(m.nodes)))
+			m.checkAll("after a refused boot", "C22/refused-boot-changes-database", "")
+			return
+		}
+		if err := m.model.ReplaceWithFile(p); err != nil {
+			m.rt.Skip("model")
+		}
+		m.hist = append(m.hist, fmt.Sprintf("BOOT-WITH-%d-NODES(ok)%s", len(m.nodes), spec))
+		m.loadedOnce, m.snapAfterLoad, m.durAfterLoad = true, true, false
+		// a later write must reach a database that is the booted one everywhere
+		m.write(false)
+		m.checkAll("after a boot that succeeded with another node attached", "C22/boot-with-attached-node-not-replicated", "")
+		return
+	}
 	if err != nil {
 		m.fail("C22/valid-boot-rejected", "boot with a valid database failed: %v (%s)", err, spec)
 	}
@@ -540,7 +606,7 @@ func (m *c22Machine) join(voter bool) {
 
 func TestVerif_C22_Loads(t *testing.T) {
 	rec := vstat.New(t, "C22", "loads",
-		"rapid state machine on a real Store (+ a second real node once joined): writes, loads of generated SQLite files (WAL/DELETE, page sizes 512..65536), SQL-text loads (as the /db/load handler executes them), boots, invalid loads/boots (random bytes, valid header + garbage, truncated database, magic only; invalidity decided by SQLite's own integrity_check), snapshots, restarts, join of a voter/read-only node; non-trivial = a load or boot was followed by >=1 snapshot and >=1 restart or join; distinct = hash of the whole history")
+		"rapid state machine on a real Store (+ a second real node once joined): writes, loads of generated SQLite files (WAL/DELETE, page sizes 512..65536), SQL-text loads (as the /db/load handler executes them), re-loads of an earlier image byte for byte after later writes (with/without a snapshot in between), boots (also attempted with a voter or read-only node attached), invalid loads/boots (random bytes, valid header + garbage, truncated database, magic only; invalidity decided by SQLite's own integrity_check), snapshots, restarts, join of a voter/read-only node; non-trivial = a load or boot was followed by >=1 snapshot and >=1 restart or join; distinct = hash of the whole history")
 	rapid.Check(t, func(rt *rapid.T) { c22Case(rt, rec) })
 }
 
@@ -594,6 +660,8 @@ func c22Case(rt *rapid.T, rec *vstat.Rec) {
 		"load":                               loadStep,
 		"load-2":                             loadStep,
 		"sql-load":                           guard(m.loadSQL),
+		"reload":                             guard(m.reload),
+		"reload-2":                           guard(m.reload),
 		"boot":                               guard(m.boot),
 		"invalid":                            invalidStep,
 		"snapshot":                           snapStep,
@@ -671,6 +739,12 @@ func c22Case(rt *rapid.T, rec *vstat.Rec) {
 	}
 	if m.nBoots > 0 {
 		rec.Label("has-boot")
+	}
+	if m.nReloads > 0 {
+		rec.Label("has-reload-of-same-image")
+	}
+	if m.nBootsAttached > 0 {
+		rec.Label("has-boot-attempt-with-attached-node")
 	}
 	if m.nInvalid > 0 {
 		rec.Label("has-invalid-load")
